@@ -75,6 +75,10 @@ func TestC13(t *testing.T) {
 			wfns = append(wfns, csv.Columns(append([]string(nil), order...)))
 		}
 		var werr error
+		if rapid.IntRange(0, 3).Draw(t, "secondcall") == 0 {
+			// the same writer options served an earlier ToCSV of the same frame: the second output counts
+			_ = hx.Safely(func() { _ = d.QF.ToCSV(&bytes.Buffer{}, wfns...) })
+		}
 		if perr := hx.Safely(func() { werr = d.QF.ToCSV(&buf, wfns...) }); perr != nil {
 			t.Fatalf("ToCSV panicked: %v\n%s", perr, desc())
 		}
@@ -109,6 +113,9 @@ func TestC13(t *testing.T) {
 		}
 		out := buf.Bytes()
 		var back qframe.QFrame
+		if rapid.IntRange(0, 3).Draw(t, "secondread") == 0 {
+			_ = hx.Safely(func() { _ = qframe.ReadCSV(bytes.NewReader(out), rfns...) }) // same reader options, second read counts
+		}
 		if perr := hx.Safely(func() { back = qframe.ReadCSV(bytes.NewReader(out), rfns...) }); perr != nil {
 			t.Fatalf("ReadCSV panicked: %v\ncsv %q\n%s", perr, clipS(string(out)), desc())
 		}
